@@ -210,6 +210,7 @@ func init() {
 	registerTimeIntrinsics(reg)
 	registerFmtIntrinsics(reg)
 	registerVndIntrinsics(reg)
+	registerHostIntrinsics(reg)
 }
 
 func errorsIs(fr *frame, err, target iface) value {
